@@ -37,7 +37,7 @@ Definition parseContentLength (b : bytes) : option Z := pres_opt (ParseUint 64 b
 
 (* hasHeaderValue(s, value): headerValueScanner.next cuts s at ',' (a trailing empty element after a final comma is not
    visited), stripSpace removes outer spaces, caseInsensitiveCompare against value *)
-Definition stripSpace (b : bytes) : bytes := trimSpaces b.
+Definition stripSpace (b : bytes) : bytes := trim b.  (* SP and HT on both sides (commit c40b715) *)
 Fixpoint hhv_loop (fuel : nat) (b value : bytes) : bool :=
   match fuel with
   | O => false
